@@ -130,6 +130,29 @@ def run_ops(ops):
     return out
 
 
+def run_bulk(kind, e1, e2, setter):
+    """two additions of one kind made by ONE variadic call (add_*s(a, b) or set_*s(a, b)) on a new builder.  The table after
+    the first element cannot be seen on that builder: it is taken from a second new builder that adds the first element
+    alone (on an empty builder the single addition cannot be refused); the table after the call is the bulk builder's."""
+    from clikit.api.args.format import ArgsFormatBuilder
+
+    ev1 = run_ops([{"op": kind, "el": e1}])[0]
+    b = ArgsFormatBuilder()
+    letter = {"addopt": "o", "addcopt": "c", "addarg": "a", "addname": "n"}[kind]
+    call = {"addopt": (b.add_options, b.set_options), "addcopt": (b.add_command_options, b.set_command_options),
+            "addarg": (b.add_arguments, b.set_arguments), "addname": (b.add_command_names, b.set_command_names)}[kind][1 if setter else 0]
+    ev2 = {"op": kind, "el": e2, "res": "ok", "cls": ""}
+    try:
+        call(mk(letter, e1), mk(letter, e2))
+    except Exception as e:  # noqa
+        ev2["res"], ev2["cls"] = "reject", type(e).__name__
+    ev2["tb"] = table(b)
+    ev2["snapThen"] = [ev1["tf"]]
+    ev2["snapNow"] = [ev1["tf"]]
+    ev2["tf"] = table(b.format)
+    return [ev1, ev2]
+
+
 ALL_OPS = ([{"op": "addopt", "el": e} for e in OPTS] + [{"op": "addcopt", "el": e} for e in COPTS]
            + [{"op": "addarg", "el": e} for e in ARGS] + [{"op": "addname", "el": e} for e in ("n1", "n2")]
            + [{"op": o, "el": ""} for o in ("clearopts", "clearcopts", "clearargs", "clearnames", "build")]
@@ -197,6 +220,14 @@ def run(ctx):
             flush(traces, cases)
             traces, cases = [], []
     ctx.sample({"random_ops": cases[-1]["ops"]})
+    # the variadic routes with two elements in one call (every pair of one kind, through add_*s and through set_*s)
+    for kind, pool in (("addopt", OPTS), ("addcopt", COPTS), ("addarg", ARGS), ("addname", ("n1", "n2"))):
+        for e1 in pool:
+            for e2 in pool:
+                for setter in (False, True):
+                    traces.append(run_bulk(kind, e1, e2, setter))
+                    cases.append({"ops": [{"op": kind, "el": e1}, {"op": kind, "el": e2}], "bulk": True, "setter": setter})
+                    ctx.count()
     flush(traces, cases)
 
 
@@ -206,4 +237,5 @@ def replay(ctx, path):
     ctx.nontriv(1)
     ctx.nontriv(2)
     ctx.sample(c)
-    ctx.validate(SPEC, "FormatBuilderTrace", "FormatBuilderTrace.cfg", [run_ops(c["ops"])], cases=[c], name="replay")
+    tr = run_bulk(c["ops"][0]["op"], c["ops"][0]["el"], c["ops"][1]["el"], c.get("setter", False)) if c.get("bulk") else run_ops(c["ops"])
+    ctx.validate(SPEC, "FormatBuilderTrace", "FormatBuilderTrace.cfg", [tr], cases=[c], name="replay")
